@@ -325,4 +325,139 @@ theorem jsaRaw_ne_zero {S : Setup ℝ} {divs : Nat} {ωs ωi : ℝ} {r : Cx ℝ}
     | err e => rw [hJ] at h; cases h
     | panic e => rw [hJ] at h; cases h
 
+/-! ### availability over ℝ (non-vacuity of the grid-level hypotheses) -/
+
+/-- over ℝ the central difference never trips its two `assert!`s -/
+theorem derivativeAt_ok (f : ℝ → ℝ) (x : ℝ) : ∃ d, Index.derivativeAt f x = .ok d := by
+  unfold Index.derivativeAt
+  simp [Index.isFinite, lit_zero]
+
+theorem walkoff_ok (S : Setup ℝ) : ∃ ρ, walkoff S = .ok ρ := by
+  unfold walkoff Index.walkoff
+  obtain ⟨d, hd⟩ := derivativeAt_ok
+    (fun t => Index.indexAlong (principal S (Beam.vacuumWavelength (pumpBeam S))) t S.cPhi
+      (pumpBeam S).direction (pumpBeam S).polarization) S.cTheta
+  simp only [hd, Outcome.map]
+  exact ⟨_, rfl⟩
+
+theorem kEff_off (S : Setup ℝ) (h : S.poling = .off) : kEff S = .ok 0 := by
+  simp [kEff, pp, h, Poling.PP.kEff, lit_zero]
+
+/-- an unpoled setup with an optimum idler has a joint-spectrum view -/
+theorem jsetup_ok_unpoled (S : Setup ℝ) (h : S.poling = .off) (i : Beam.Beam ℝ) (hi : idlerBeam S = .ok i) :
+    ∃ J, jsetup S = .ok J := by
+  obtain ⟨ρ, hρ⟩ := walkoff_ok S
+  exact ⟨_, by unfold jsetup; rw [hi, hρ, kEff_off S h]; rfl⟩
+
+theorem jsaRaw_ok_unpoled (S : Setup ℝ) (h : S.poling = .off) (i : Beam.Beam ℝ) (hi : idlerBeam S = .ok i)
+    (ωs ωi : ℝ) : ∃ r, jsaRaw S 50 ωs ωi = .ok r := by
+  obtain ⟨J, hJ⟩ := jsetup_ok_unpoled S h i hi
+  unfold jsaRaw
+  split
+  · exact ⟨_, rfl⟩
+  · exact ⟨_, by rw [hJ]; rfl⟩
+
+theorem jsiSinglesRaw_ok_unpoled (S : Setup ℝ) (h : S.poling = .off) (i : Beam.Beam ℝ) (hi : idlerBeam S = .ok i)
+    (ωs ωi : ℝ) : ∃ r, jsiSinglesRaw S 50 ωs ωi = .ok r := by
+  obtain ⟨J, hJ⟩ := jsetup_ok_unpoled S h i hi
+  unfold jsiSinglesRaw
+  split
+  · exact ⟨_, rfl⟩
+  · exact ⟨_, by rw [hJ]; rfl⟩
+
+theorem centreValues_ok_unpoled (o : Setup ℝ) (h : o.poling = .off) (i : Beam.Beam ℝ) (hi : idlerBeam o = .ok i) :
+    ∃ c, centreValues o 50 = .ok c := by
+  obtain ⟨r, hr⟩ := jsaRaw_ok_unpoled o h i hi (signalBeam o).frequency i.frequency
+  obtain ⟨rs, hrs⟩ := jsiSinglesRaw_ok_unpoled o h i hi (signalBeam o).frequency i.frequency
+  unfold centreValues
+  rw [hi]
+  simp only [Outcome.bind, jsiNormalizationC, jsiSinglesNormalizationC, hi, Outcome.map, hr, hrs]
+  exact ⟨_, rfl⟩
+
+theorem autoIdler_ok (S : Setup ℝ)
+    (hlam : Beam.vacuumWavelength (pumpBeam S) < Beam.vacuumWavelength (signalBeam S)) :
+    ∃ i, autoIdler S = .ok i := by
+  obtain ⟨o, ho⟩ := optimumIdler_ok_of_lt (i := idlerIn S) hlam
+  exact ⟨_, by unfold autoIdler; rw [ho]; rfl⟩
+
+/-- the composed `try_as_optimum` of an unpoled setup whose (reset) signal wavelength exceeds the pump
+wavelength returns an unpoled optimum with an optimum idler -/
+theorem asOptimum_ok_unpoled (S : Setup ℝ) (hp : S.poling = .off)
+    (hlam : Beam.vacuumWavelength (pumpBeam (optReset S)) < Beam.vacuumWavelength (signalBeam (optReset S))) :
+    ∃ o i, asOptimum S = .ok o ∧ o.poling = .off ∧ idlerBeam o = .ok i ∧ o.lamP = S.lamP ∧ o.sig.lam = S.sig.lam := by
+  have hpT : (optReset S).poling = .off := hp
+  obtain ⟨θ, hθ⟩ := optimumThetaB_ok (optReset S) (signalBeam (optReset S)) (pumpBeam (optReset S)) hlam
+  have hD : optDecide (optReset S) = .ok { optReset S with cTheta := θ } := by
+    rw [optDecide_off _ hpT, if_neg (not_le.mpr hlam), hθ]; rfl
+  let S3 : Setup ℝ := { ({ optReset S with cTheta := θ } : Setup ℝ) with idlerAuto := true }
+  obtain ⟨i, hi⟩ := autoIdler_ok S3 hlam
+  let o : Setup ℝ := { S3 with
+      sig := { S3.sig with z0 := optimalWaistPosition S3 (signalBeam S3) }
+      idl := { S3.idl with z0 := optimalWaistPosition S3 i } }
+  have hF : optFinish { optReset S with cTheta := θ } = .ok o := by
+    have hi' : idlerBeam S3 = .ok i := by simp only [idlerBeam, S3, if_true]; exact hi
+    show (idlerBeam S3).map _ = _
+    rw [hi']
+    rfl
+  have hio : idlerBeam o = .ok i := by
+    have : idlerBeam o = autoIdler S3 := rfl
+    rw [this, hi]
+  exact ⟨o, i, by unfold asOptimum; rw [hD]; exact hF, hp, hio, rfl, rfl⟩
+
+theorem jointSpectrum_ok_unpoled (S : Setup ℝ) (hp : S.poling = .off)
+    (hlam : Beam.vacuumWavelength (pumpBeam (optReset S)) < Beam.vacuumWavelength (signalBeam (optReset S))) :
+    ∃ js, jointSpectrum S 50 = .ok js := by
+  obtain ⟨o, i, ho, hpo, hi, -, -⟩ := asOptimum_ok_unpoled S hp hlam
+  obtain ⟨c, hc⟩ := centreValues_ok_unpoled o hpo i hi
+  exact ⟨⟨S, 50, c.1, c.2⟩, by unfold jointSpectrum; rw [ho]; simp only [hc, Outcome.map]⟩
+
+/-- the wavelength hypothesis in primitive terms -/
+theorem reset_wavelengths (S : Setup ℝ) (h0 : S.lamP ≠ 0) (h1 : S.sig.lam ≠ 0) (h : S.lamP < S.sig.lam) :
+    Beam.vacuumWavelength (pumpBeam (optReset S)) < Beam.vacuumWavelength (signalBeam (optReset S)) := by
+  have hp : Beam.vacuumWavelength (pumpBeam (optReset S)) = S.lamP := pump_wavelength (optReset S) h0
+  have hs : Beam.vacuumWavelength (signalBeam (optReset S)) = S.sig.lam := signal_wavelength (optReset S) h1
+  rw [hp, hs]; exact h
+
+/-- **the hypotheses of the grid-level theorems are jointly satisfiable**: for every unpoled primitive
+setup with an explicit idler and `0 ≠ λ_p < λ_s`, the spectrum object (Simpson-50), the joint-spectrum
+view and the Simpson rule all exist over ℝ -/
+theorem grid_hypotheses_satisfiable (S : Setup ℝ) (hp : S.poling = .off) (ha : S.idlerAuto = false)
+    (h0 : S.lamP ≠ 0) (h1 : S.sig.lam ≠ 0) (h : S.lamP < S.sig.lam) :
+    ∃ js J q, jointSpectrum S 50 = .ok js ∧ jsetup S = .ok J ∧
+      (simpsonRule 50 : Outcome (List (ℝ × ℝ) × ℝ)) = .ok q := by
+  obtain ⟨js, hjs⟩ := jointSpectrum_ok_unpoled S hp (reset_wavelengths S h0 h1 h)
+  obtain ⟨J, hJ⟩ := jsetup_ok_unpoled S hp _ (idlerBeam_explicit S ha)
+  exact ⟨js, J, _, hjs, hJ, rfl⟩
+
+/-- a concrete unpoled primitive setup with an explicit idler (KTP type II, 775 → 1500 + 1603 nm) -/
+def exGrid : Setup ℝ :=
+  { crystal := .KTP, cTheta := 1.5, cPhi := 0, L := 0.01, T := 293, counterProp := false,
+    pm := .t2_e_eo, lamP := 775e-9, wpx := 1e-4, wpy := 1e-4, bandwidth := 1e-9, power := 1,
+    threshold := 0.01, deff := 1e-12,
+    sig := ⟨1500e-9, 0.01, 0, 5e-5, 5e-5, -0.003⟩, idl := ⟨1603e-9, 0.011, 3, 6e-5, 6e-5, -0.002⟩,
+    idlerAuto := false, poling := .off }
+
+theorem exGrid_available : ∃ js J q, jointSpectrum exGrid 50 = .ok js ∧ jsetup exGrid = .ok J ∧
+    (simpsonRule 50 : Outcome (List (ℝ × ℝ) × ℝ)) = .ok q :=
+  grid_hypotheses_satisfiable exGrid rfl rfl (by norm_num [exGrid]) (by norm_num [exGrid])
+    (by norm_num [exGrid])
+
+/-- the exchanged setup (idler-singles route) has a spectrum object too -/
+theorem exGrid_swap_available : ∃ sw, jointSpectrum exGrid.swap 50 = .ok sw := by
+  obtain ⟨js, -, -, h, -, -⟩ := grid_hypotheses_satisfiable exGrid.swap rfl rfl
+    (by norm_num [exGrid, Setup.swap]) (by norm_num [exGrid, Setup.swap]) (by norm_num [exGrid, Setup.swap])
+  exact ⟨js, h⟩
+
+/-- an optimum setup (fixed point of the composed `try_as_optimum`) with a spectrum object exists -/
+theorem exGrid_optimum_available :
+    ∃ (o : Setup ℝ) (js : JS ℝ), asOptimum o = .ok o ∧ jointSpectrum o 50 = .ok js := by
+  obtain ⟨o, i, ho, hpo, -, hl, hs⟩ := asOptimum_ok_unpoled exGrid rfl
+    (reset_wavelengths exGrid (by norm_num [exGrid]) (by norm_num [exGrid]) (by norm_num [exGrid]))
+  have hfix := asOptimum_idem exGrid o ho rfl
+  obtain ⟨js, hjs⟩ := jointSpectrum_ok_unpoled o hpo
+    (reset_wavelengths o (by rw [hl]; norm_num [exGrid]) (by rw [hs]; norm_num [exGrid])
+      (by rw [hl, hs]; norm_num [exGrid]))
+  exact ⟨o, js, hfix, hjs⟩
+
+
 end Spdc.Compose
